@@ -192,11 +192,14 @@ func classifyFatal(stderr string) (class, site string) {
 // caseTimeout is the wall-clock watchdog for one case: generous (machine is
 // shared); the CPU-time oracle (10 s per 64 KiB) is evaluated separately.
 func caseTimeout(c *Case) time.Duration {
+	if c.TimeoutSec > 0 {
+		return time.Duration(c.TimeoutSec) * time.Second
+	}
 	n := 0
 	for _, f := range c.Files {
 		n += len(f.Src)
 	}
-	return time.Duration(90+60*(n/65536)) * time.Second
+	return time.Duration(120+60*(n/65536)) * time.Second
 }
 
 // runOne runs c in ch; a non-nil Crash means the child is gone (caller restarts).
